@@ -335,7 +335,10 @@ Shapes == {"self_rec", "mutual_rec", "rec_via_map", "rec_via_oneof", "rec_via_re
            "path_braces",
            \* services that share their simple name across the packages of one run (v1 / v2 / v3 of an API generated
            \* together; four of them): documents, modules and helper names derive from the simple name
-           "same_named_services"}
+           "same_named_services",
+           \* path variables bound to fields whose (valid) names do not split into plain words: a trailing
+           \* underscore, two underscores in a row, an underscore before a digit, a leading underscore
+           "odd_var_names"}
 RECURSIVE DeepMsgs(_, _, _)
 DeepMsgs(P, i, n) ==
   IF i > n THEN <<>>
@@ -423,6 +426,14 @@ C16Case(P, sh, depth) ==
                                         m("C", <<Lit("open"), Lit("{post_id")>>),
                                         m("D", <<Lit("empty"), Lit("{}"), Var("part_id")>>),
                                         m("E", <<Lit("}{"), Var("sku"), Lit("}}")>>)>>)>>,
+                             <<w(<<F("k", "k", 1, "string", "one")>>), q>>, <<EnumE>>)>>)
+       [] sh = "odd_var_names" ->
+            LET q == Msg("Q", FN(P, "Q"), <<F("item_id_", "itemId", 1, "string", "one"), F("part__id", "partId", 2, "string", "one"),
+                                           F("line_2", "line2", 3, "string", "one"), F("_lead", "Lead", 4, "string", "one")>>)
+                m(n, segs) == Method(n, FN(P, "Q"), FN(P, "W"), TRUE, Parts(TRUE, segs, FALSE), "POST")
+            IN Schema(<<File(P \o "/svc.proto", Pkg(P), GoPkg(P), TRUE, <<>>,
+                             <<Svc(P, <<m("A", <<Lit("items"), Var("item_id_")>>), m("B", <<Lit("parts"), Var("part__id")>>),
+                                        m("C", <<Lit("lines"), Var("line_2")>>), m("D", <<Lit("leads"), Var("_lead")>>)>>)>>,
                              <<w(<<F("k", "k", 1, "string", "one")>>), q>>, <<EnumE>>)>>)
        [] sh = "same_named_services" ->
             LET one(Q) == File(Q \o "/svc.proto", Pkg(Q), GoPkg(Q), TRUE, <<>>, <<Svc(Q, <<PostIn(Q, FN(Q, "In"))>>)>>, <<In(Q), Out(Q)>>, <<>>)
